@@ -1,6 +1,8 @@
 import GqlVerif.Props.C01
 import GqlVerif.Proofs.C01EndToEnd
 import GqlVerif.Proofs.C01AbstractI
+import GqlVerif.Proofs.C01RecursiveE
+import GqlVerif.Proofs.C01RecursiveV
 open GqlVerif.C01
 #print axioms accepts_mono
 #print axioms conforming_int_accepted
@@ -50,3 +52,10 @@ open GqlVerif.C01
 #print axioms GqlVerif.C01.E2E.fragment_overlap_loses_key
 #print axioms GqlVerif.C01.E2E.variantOp_of_treeOp
 #print axioms GqlVerif.C01.E2E.fragmentOp_of_variantOp
+-- recursive fragments (Box) and spreads inside fragment bodies (Proofs/C01Recursive*.lean)
+#print axioms GqlVerif.C01.E2E.recfragment_items_shape
+#print axioms GqlVerif.C01.E2E.recfragment_struct_shape
+#print axioms GqlVerif.C01.E2E.recfragment_accepts
+#print axioms GqlVerif.C01.E2E.recfragment_lossless
+#print axioms GqlVerif.C01.E2E.recfragment_roundtrip
+#print axioms GqlVerif.C01.E2E.canonR_stable
